@@ -21,6 +21,17 @@ func (s stepBudgetExceeded) String() string {
 type FaultAt struct {
 	At       int  `json:"at"`
 	WithData bool `json:"with_data,omitempty"`
+	// Err selects the error a failing reader returns: "" = ErrSimIO,
+	// "unexpected_eof" = io.ErrUnexpectedEOF (what a reader over a truncated
+	// compressed or framed transport reports: not a clean end of input)
+	Err string `json:"err,omitempty"`
+}
+
+func (f *FaultAt) error() error {
+	if f != nil && f.Err == "unexpected_eof" {
+		return io.ErrUnexpectedEOF
+	}
+	return ErrSimIO
 }
 
 // ReadPlan is the complete, explicit read schedule of one task. Executing it
@@ -164,7 +175,7 @@ func (r *SimReader) read(p []byte) (int, error) {
 	}
 	if r.plan.Fail != nil && r.pos >= r.plan.Fail.At {
 		r.failFired = true
-		return 0, ErrSimIO
+		return 0, r.plan.Fail.error()
 	}
 	if r.pos >= r.end {
 		if r.plan.Cut != nil {
@@ -211,7 +222,7 @@ func (r *SimReader) read(p []byte) (int, error) {
 	if r.plan.Fail != nil && r.pos == r.plan.Fail.At && r.plan.Fail.WithData && k > 0 {
 		r.failFired = true
 		r.failData = true
-		return k, ErrSimIO
+		return k, r.plan.Fail.error()
 	}
 	if r.pos == r.end && k > 0 {
 		if r.plan.Cut != nil && r.plan.Cut.At <= len(r.m) && r.plan.Cut.WithData && r.end == r.plan.Cut.At {
